@@ -12,7 +12,6 @@ use std::os::raw::c_char;
 use std::panic::{catch_unwind, AssertUnwindSafe};
 use std::path::{Path, PathBuf};
 use std::sync::{Arc, Mutex, Weak};
-use std::time::Instant;
 
 extern "C" {
     fn riti_config_new() -> *mut Config;
@@ -536,7 +535,22 @@ pub enum Fail {
     Slow(f64),
 }
 
+/// A call is "slow" when it burns more than this much CPU time of its own thread (not wall time: the
+/// sandbox may be paused or heavily loaded, which is nobody's unbounded blow-up).
 pub const SLOW_S: f64 = 2.0;
+
+/// CPU time consumed by the calling thread, in seconds.
+pub fn thread_cpu_s() -> f64 {
+    let mut ts = libc::timespec { tv_sec: 0, tv_nsec: 0 };
+    unsafe {
+        libc::clock_gettime(libc::CLOCK_THREAD_CPUTIME_ID, &mut ts);
+    }
+    ts.tv_sec as f64 + ts.tv_nsec as f64 * 1e-9
+}
+
+/// Ticks of the watchdog thread (one per second of its own sleeping). Hang detection counts ticks, not
+/// wall time, so a paused sandbox (snapshot) does not look like a call that never returns.
+pub static TICK: std::sync::atomic::AtomicU64 = std::sync::atomic::AtomicU64::new(0);
 
 /// What a context is doing right now, readable by the watchdog thread (a call that never
 /// returns) and, in journal mode, persisted before every call (a call that kills the process).
@@ -546,7 +560,8 @@ pub struct Journal {
     pub origin: Option<(String, String, u8)>,
     /// events applied since the method was last re-created / restored / a word ended
     pub since: Vec<Ev>,
-    pub started: Option<Instant>,
+    /// watchdog tick at which the running call started
+    pub started: Option<u64>,
     pub id: usize,
 }
 
@@ -574,7 +589,7 @@ pub fn journal_dir() -> Option<&'static str> {
     DIR.get_or_init(|| std::env::var("VERIF_JOURNAL").ok().filter(|s| !s.is_empty())).as_deref()
 }
 
-pub const HANG_S: f64 = 20.0;
+pub const HANG_TICKS: u64 = 30;
 
 /// A real context plus the options it was created with.
 pub struct Ctx {
@@ -611,7 +626,7 @@ impl Ctx {
                 j.since.clear();
             }
             j.since.push(ev.clone());
-            j.started = Some(Instant::now());
+            j.started = Some(TICK.load(std::sync::atomic::Ordering::Relaxed));
             if let Some(dir) = journal_dir() {
                 let prop = std::env::args().nth(1).unwrap_or_default().to_uppercase();
                 let _ = std::fs::write(format!("{}/{}.json", dir, j.id), j.to_json(&prop, "abort", "the process died during the last event of this history").to_string());
@@ -633,7 +648,7 @@ impl Ctx {
     }
 
     fn apply_inner(&mut self, ev: &Ev) -> Result<Out, Fail> {
-        let t = Instant::now();
+        let t = thread_cpu_s();
         let r = match ev {
             Ev::Key { code, m, sel } => {
                 let s = guard(|| self.ctx.get_suggestion_for_key(*code, *m, *sel))
@@ -667,7 +682,7 @@ impl Ctx {
                 Out::Unit
             }
         };
-        let dt = t.elapsed().as_secs_f64();
+        let dt = thread_cpu_s() - t;
         if dt > SLOW_S {
             return Err(Fail::Slow(dt));
         }
